@@ -26,6 +26,7 @@
  *      partial|ft|send HEX|closepeer|resetpeer cN (each: write to the peer socket, then run the event
  *      loop to rest) | appclose|start|refuse cN | kbdclose cN | gonekick cN cM | ext | pump | out cN |
  *      pw (clients must authenticate from now on) | auth cN ok|bad | ptr cN MASK | ftgo cN | cursor | shutdown0 |
+ *      hconn cN hook=.. [via=get] (connection handed over by the HTTP server's proxy support) |
  *      extrefuse cN (the extension's init hook will ask to be removed) | extdrop cN | extadd cN |
  *      draw SEED (repaint the framebuffer, mark it modified, run the loop) | shutdown | cleanup | end
  */
@@ -57,6 +58,8 @@ static conn_t conns[MAXC];
 static rfbScreenInfoPtr scr;
 static int cleaned = 0;
 static conn_t *pending = NULL;
+static int http_ls[2] = {-1, -1};   /* stand-in for the HTTP listening socket (never readable) + its other end */
+static int http_down = 0;           /* rfbShutdownServer has closed the HTTP sockets */
 static int fdconn[MAXFD];       /* conn index + 1 owning this server descriptor number */
 static int fdplace[MAXFD];      /* 1: the number is only a placeholder (server closed it) */
 static int fdsticky[MAXFD];     /* 0 none, else fault kind that sticks to the descriptor */
@@ -323,6 +326,7 @@ static int count_stray(void) {
     fd = atoi(de->d_name);
     if (fd <= 2 || fd == dfd || fd == devnull) continue;
     if (fd < MAXFD && fdconn[fd]) continue;
+    if (fd == http_ls[0] || fd == http_ls[1]) continue;
     for (i = 0; i < MAXC; i++) if (conns[i].used && conns[i].peer == fd) known = 1;
     if (!known) stray++;
   }
@@ -478,7 +482,48 @@ static void __attribute__((noinline)) run_ops(void) {
       rfbSetCursor(scr, cur);
       print_state(); fflush(stdout); continue;
     }
-    if (!strcmp(tok[0], "shutdown0") && n == 1) { rfbShutdownServer(scr, FALSE); print_state(); fflush(stdout); continue; }
+    if (!strcmp(tok[0], "shutdown0") && n == 1) { rfbShutdownServer(scr, FALSE); http_down = 1; http_ls[0] = -1; print_state(); fflush(stdout); continue; }
+    if (!strcmp(tok[0], "hconn") && n >= 2 && tok[1][0] == 'c') {
+      /* second entry point: the built-in HTTP server with proxy connections enabled hands the
+         connection over to rfbNewClientConnection (CONNECT host:port  or  GET /proxied.connection) */
+      int id = atoi(tok[1] + 1), sv[2], dec = RFB_CLIENT_ACCEPT, j, get = 0, tries;
+      char req[128];
+      if (id < 0 || id >= MAXC || conns[id].used || (id > 0 && !conns[id - 1].used) || http_down) { puts("bad-op"); fflush(stdout); continue; }
+      for (j = 2; j < n; j++) {
+        if (!strcmp(tok[j], "hook=hold")) dec = RFB_CLIENT_ON_HOLD;
+        else if (!strcmp(tok[j], "hook=refuse")) dec = RFB_CLIENT_REFUSE;
+        else if (!strcmp(tok[j], "via=get")) get = 1;
+      }
+      if (http_ls[0] < 0) {
+        if (socketpair(AF_UNIX, SOCK_STREAM, 0, http_ls) < 0) { puts("bad-op"); fflush(stdout); continue; }
+        scr->httpDir = (char *)"/nonexistent-c12"; scr->httpEnableProxyConnect = TRUE;
+        scr->httpListenSock = http_ls[0];
+      }
+      c = &conns[id]; memset(c, 0, sizeof *c);
+      c->used = 1; c->id = id; c->decision = dec; c->peer = c->srvfd = -1;
+      if (socketpair(AF_UNIX, SOCK_STREAM, 0, sv) < 0 || sv[0] >= MAXFD) { puts("bad-op"); fflush(stdout); continue; }
+      real_fcntl(sv[1], F_SETFL, real_fcntl(sv[1], F_GETFL, 0) | O_NONBLOCK);
+      real_fcntl(sv[0], F_SETFL, real_fcntl(sv[0], F_GETFL, 0) | O_NONBLOCK);   /* as httpd's accept path does */
+      { int sz = 1 << 20; setsockopt(sv[0], SOL_SOCKET, SO_SNDBUF, &sz, sizeof sz); setsockopt(sv[1], SOL_SOCKET, SO_SNDBUF, &sz, sizeof sz); }
+      c->peer = sv[1]; c->srvfd = sv[0];
+      fdconn[sv[0]] = id + 1; fdplace[sv[0]] = 0; fdsticky[sv[0]] = 0;
+      if (get) snprintf(req, sizeof req, "GET /proxied.connection HTTP/1.0\r\n\r\n");
+      else snprintf(req, sizeof req, "CONNECT localhost:%d HTTP/1.0\r\n\r\n", scr->port);
+      peer_write(c, (unsigned char *)req, strlen(req));
+      pending = c;
+      ev("new c%d", id);
+      scr->httpSock = sv[0];
+      for (tries = 0; tries < 4 && scr->httpSock == sv[0]; tries++) rfbHttpCheckFds(scr);
+      if (scr->httpSock == sv[0]) {
+        /* the request never completed (stalled read): the HTTP server keeps the connection until the
+           next HTTP client replaces it -- do what rfbHttpCheckFds does then */
+        close(sv[0]); scr->httpSock = RFB_INVALID_SOCKET;
+      }
+      pending = NULL;
+      ev("ret c%d %s", id, c->cl ? "ptr" : "null");
+      drain(c);
+      print_state(); fflush(stdout); continue;
+    }
     if (!strcmp(tok[0], "ext") && n <= 2) {
       /* registration order decides where the node of the extension with data sits in cl->extensions:
          "ext" -> first (head), "ext rev" -> behind the other one */
@@ -493,7 +538,7 @@ static void __attribute__((noinline)) run_ops(void) {
       pump(); print_state(); fflush(stdout); continue;
     }
     if (!strcmp(tok[0], "pump") && n == 1) { pump(); print_state(); fflush(stdout); continue; }
-    if (!strcmp(tok[0], "shutdown") && n == 1) { rfbShutdownServer(scr, TRUE); print_state(); fflush(stdout); continue; }
+    if (!strcmp(tok[0], "shutdown") && n == 1) { rfbShutdownServer(scr, TRUE); http_down = 1; http_ls[0] = -1; print_state(); fflush(stdout); continue; }
     if (!strcmp(tok[0], "cleanup") && n == 1) {
       char *fb = scr->frameBuffer;
       rfbScreenCleanup(scr); free(fb); cleaned = 1;
@@ -589,6 +634,8 @@ static void __attribute__((noinline)) finish(void) {
       free(conns[i].out.p);
     }
     for (fd = 0; fd < MAXFD; fd++) if (fdconn[fd]) real_close(fd);
+    if (http_ls[0] >= 0) real_close(http_ls[0]);
+    if (http_ls[1] >= 0) real_close(http_ls[1]);
     memset(conns, 0, sizeof conns); pending = NULL;
     leaks = __lsan_do_recoverable_leak_check();
     printf("end io=%ld openleft=%d stray=%d leaks=%d kinds=%s\n", io_index, openleft, stray, leaks ? 1 : 0,
